@@ -140,6 +140,10 @@ class Seams(object):
         pos = len(self.calls)
         self.calls.append(name)
         f = self.faults.get(pos)
+        if name == 'isfile':
+            # os.path.isfile never raises: whatever deviation is scheduled for this position (after an earlier
+            # deviation the call sequence may have shifted) can only make it answer False
+            return 'false' if f is not None else None
         if f is not None and f != 'false':
             raise OSError(f, os.strerror(f), arg)
         return f
